@@ -529,7 +529,7 @@ def r5(ctx):
         def unpad(e):
             e1 = inline(e, lenv, depth=1) if isinstance(e, ast.Name) else e
             if isinstance(e1, ast.Call) and U(e1.func) == "pad_ragged_arrays_to_dense_array":
-                e1 = e1.args[0]
+                e1 = (list(e1.args) + [k_.value for k_ in e1.keywords if k_.arg in ("arrays",)])[0]
                 for _ in range(3):
                     if isinstance(e1, ast.Name):
                         e1 = inline(e1, lenv, depth=1)
